@@ -29,6 +29,30 @@ TABLE = {
  "C17-A": ("cmd/ow-single", "go test -vet=off -count=1 -run TestC17A ./cmd/ow-single/"),
  "C17-B": ("io/json", "go test -vet=off -count=1 -run TestC17B ./io/json/"),
 }
+
+TABLE.update({
+ "C01-C": ("data", "go test -vet=off -count=1 -run TestC01C ./data/"),
+ "C01-D": ("data", "go test -vet=off -count=1 -run TestC01D ./data/"),
+ "C02-C": ("data", "go test -vet=off -count=1 -run TestC02C ./data/"),
+ "C02-D": ("data", "go test -vet=off -count=1 -run TestC02D ./data/"),
+ "C03-C": ("data/cdata", "go test -vet=off -count=1 -run TestC03C ./data/cdata/"),
+ "C03-D": ("data/cdata", "go test -vet=off -count=1 -run TestC03D ./data/cdata/"),
+ "C04-C": ("models/routing", "go test -vet=off -count=1 -run TestC04C ./models/routing/"),
+ "C04-D": ("models/functions", "go test -vet=off -count=1 -run TestC04D ./models/functions/"),
+ "C05-C": ("models/routing", "go test -vet=off -count=1 -run TestC05C ./models/routing/"),
+ "C05-D": ("cmd/ow-sim", "go1.26.8 test -modfile=%(stub)s -vet=off -count=1 -run TestC05D ./cmd/ow-sim/"),
+ "C06-C": ("models/routing", "go test -vet=off -count=1 -run TestC06C ./models/routing/"),
+ "C06-D": ("models/storage", "go test -vet=off -count=1 -run TestC06D ./models/storage/"),
+ "C07-C": ("cmd/ow-sim", "go1.26.8 test -modfile=%(stub)s -vet=off -count=1 -run TestC07C ./cmd/ow-sim/"),
+ "C07-D": ("cmd/ow-sim", "go1.26.8 test -modfile=%(stub)s -vet=off -count=1 -run TestC07D ./cmd/ow-sim/"),
+ "C08-C": ("io", "go1.26.8 test -modfile=%(stub)s -vet=off -count=1 -run TestC08C ./io/"),
+ "C08-D": ("io", "go1.26.8 test -modfile=%(stub)s -vet=off -count=1 -run TestC08D ./io/"),
+ "C14-C": ("models/rr", "go test -vet=off -count=1 -run TestC14C ./models/rr/"),
+ "C14-D": ("models/storage", "go test -vet=off -count=1 -run TestC14D ./models/storage/"),
+ "C17-C": ("sim", "go test -vet=off -count=1 -run TestRequestDeliveredInPieces ./sim/"),
+ "C17-D": ("sim", "go test -vet=off -count=1 -run TestSuppliedStatesDoNotChangeTheRun ./sim/"),
+})
+
 SUITE = "go build ./data/... ./util/... ./sim/... ./models/... ./conv/... ./libopenwater/ && go test -vet=off -count=1 ./data/... ./io/json/... ./util/..."
 
 def sh(cmd, cwd=WT):
